@@ -388,10 +388,13 @@ impl<'a> FormatFields<'a> for JsonFields {
         // then, we could store fields as JSON values, and add to them
         // without having to parse and re-serialize.
         let mut new = String::new();
-        let map: BTreeMap<&'_ str, serde_json::Value> =
+        // The keys are deserialized as owned strings: a key that needs
+        // escaping in JSON (a field name containing a quote or a backslash)
+        // cannot be borrowed from the serialized text.
+        let map: BTreeMap<String, serde_json::Value> =
             serde_json::from_str(current).map_err(|_| fmt::Error)?;
         let mut v = JsonVisitor::new(&mut new);
-        v.values = map;
+        v.values = map.iter().map(|(k, v)| (k.as_str(), v.clone())).collect();
         fields.record(&mut v);
         v.finish()?;
         current.fields = new;
